@@ -6,6 +6,7 @@ import PoseVerif.Driver.Masked
 import PoseVerif.Driver.Collate
 import PoseVerif.Driver.PoseOps
 import PoseVerif.Model.Frames
+import PoseVerif.Model.OpenPose
 /-!
 `posedriver`: one JSON request per input line, one JSON answer per output line.
 Runs the executable definitions of the model (the same ones the theorems are about).
@@ -154,6 +155,20 @@ def handle (j : Json) : R Json := do
   | "masked_prog" => runMaskedProg j
   | "collate" => runCollate j
   | "body_ops" => runBodyOps j
+  | "frame_id" =>
+    let name ← getStrHex j "name"
+    match frameId name with
+    | some n => pure (Json.mkObj [("ok", Json.bool true), ("frame", natJ n)])
+    | none => pure failJ
+  | "openpose" =>
+    let frames ← (← (← j.getObjVal? "frames").getArr?).toList.mapM fun fr => do
+      let people ← (← (← fr.getObjVal? "people").getArr?).toList.mapM fun person => do
+        (← person.getArr?).toList.mapM fun comp => do (← comp.getArr?).toList.mapM f64OfJson
+      pure ({ id := ← getNat fr "id", people } : OPFrame Float)
+    let nf := (j.getObjValAs? Nat "num_frames").toOption
+    match loadOpenpose floatScalar floatIsZero (← getNat j "total_points") frames (← f64OfJson (← j.getObjVal? "fps")) nf with
+    | some b => pure (Json.mkObj [("ok", Json.bool true), ("body", pbodyToJson b)])
+    | none => pure failJ
   | "dropout" =>
     let n ← getNat j "n"
     let dropped ← getNatArr (← j.getObjVal? "dropped")
